@@ -1,5 +1,148 @@
-"""Checker self-validation (thorough tier): filled in later."""
+"""Checker self-validation (thorough tier).
+
+For one property, on scratch copies of the *current* /repo/src (mkdtemp outside /repo and /verif, removed in a finally):
+  * breaking variants: the reverse of every recorded `fix:` commit of this property (regress/) and every seeded change kept
+    under seeded/ for this property -- the check is expected to fire (exit 1) and the evidence records whether it did;
+  * behaviour-preserving twins computed on the AST of the modules the rule consulted: (a) the module re-emitted by
+    ast.unparse (layout, comments, line numbers all change), (b) a local variable renamed consistently inside each anchored
+    function -- the check must stay silent (exit 0).
+Results go into the evidence file; they never change the exit code of the check itself.
+"""
+from __future__ import annotations
+
+import ast
+import builtins
+import json
+import os
+import shutil
+import subprocess
+import sys
+import tempfile
+from concurrent.futures import ThreadPoolExecutor
+
+from .report import REPO, VERIF
+
+
+def _run_check(prop, src):
+    c = subprocess.run([sys.executable, os.path.join(VERIF, "check"), prop, "--no-evidence", "--src", src], capture_output=True, text=True)
+    first = next((l for l in c.stdout.splitlines() if l.startswith(("FINDING", "ANALYSIS-ERROR"))), "")
+    return c.returncode, first[:300]
+
+
+def _copy_src(tmp, name):
+    dst = os.path.join(tmp, name)
+    shutil.copytree(os.path.join(REPO, "src"), os.path.join(dst, "src"))
+    return dst
+
+
+class _Renamer(ast.NodeTransformer):
+    def __init__(self, old, new):
+        self.old, self.new = old, new
+
+    def visit_Name(self, n):
+        if n.id == self.old:
+            n.id = self.new
+        return n
+
+    def visit_arg(self, n):
+        return n
+
+
+def _rename_locals(tree):
+    """Rename, in every function, one plain local (assigned by a simple statement, never a parameter, global,
+    attribute name or keyword argument name, not used in nested defs) to <name>_rn.  Returns number of renames."""
+    count = 0
+    for fn in [n for n in ast.walk(tree) if isinstance(n, (ast.FunctionDef, ast.AsyncFunctionDef))]:
+        params = {a.arg for a in fn.args.posonlyargs + fn.args.args + fn.args.kwonlyargs}
+        if fn.args.vararg:
+            params.add(fn.args.vararg.arg)
+        if fn.args.kwarg:
+            params.add(fn.args.kwarg.arg)
+        nested = [n for n in ast.walk(fn) if isinstance(n, (ast.FunctionDef, ast.AsyncFunctionDef, ast.Lambda, ast.ClassDef)) and n is not fn]
+        nested_names = {x.id for n in nested for x in ast.walk(n) if isinstance(x, ast.Name)}
+        kwnames = {k.arg for c in ast.walk(fn) if isinstance(c, ast.Call) for k in c.keywords if k.arg}
+        declared = {n2 for g in ast.walk(fn) if isinstance(g, (ast.Global, ast.Nonlocal)) for n2 in g.names}
+        stores = [n.id for n in ast.walk(fn) if isinstance(n, ast.Name) and isinstance(n.ctx, ast.Store)]
+        for cand in stores:
+            if cand in params or cand in nested_names or cand in kwnames or cand in declared or cand.startswith("_") or hasattr(builtins, cand) or len(cand) < 3:
+                continue
+            if any(isinstance(s, ast.JoinedStr) for s in ast.walk(fn)) and False:
+                continue
+            # f-strings with `=` debugging or locals() would expose the name: skip functions using locals()/eval
+            if any(isinstance(c, ast.Call) and isinstance(c.func, ast.Name) and c.func.id in ("locals", "eval", "exec", "vars") for c in ast.walk(fn)):
+                break
+            _Renamer(cand, cand + "_rn").visit(fn)
+            count += 1
+            break
+    return count
 
 
 def run_for(prop, rule, model):
-    return {"selftest": "not yet implemented"}
+    tmp = tempfile.mkdtemp(prefix="verif_selftest_")
+    out = {"breaking": [], "preserving": []}
+    try:
+        jobs = []
+        # ---- breaking variants
+        idx = os.path.join(VERIF, "regress", "index.json")
+        corpus = []
+        if os.path.exists(idx):
+            for e in json.load(open(idx)):
+                if e["property"] == prop:
+                    corpus.append(("reverted fix " + e["commit"], os.path.join(VERIF, e["patch"]), True))
+        sd = os.path.join(VERIF, "seeded")
+        if os.path.isdir(sd):
+            for d in sorted(os.listdir(sd)):
+                mp = os.path.join(sd, d, "meta.json")
+                if os.path.exists(mp):
+                    meta = json.load(open(mp))
+                    if meta.get("property") == prop:
+                        corpus.append(("seeded " + d, os.path.join(sd, d, "patch.diff"), bool(meta.get("expected_caught", True))))
+        for i, (label, patch, expect) in enumerate(corpus):
+            root = _copy_src(tmp, f"b{i}")
+            r = subprocess.run(["patch", "-p1", "-s", "-d", root, "-i", patch], capture_output=True, text=True)
+            if r.returncode != 0:
+                out["breaking"].append(dict(variant=label, status="skipped: patch does not apply to the current tree"))
+                continue
+            jobs.append(("breaking", label, os.path.join(root, "src"), expect))
+        # ---- preserving twins on the consulted modules
+        from . import report, srcmodel
+
+        ctx = report.Ctx(prop, "quick", model)
+        try:
+            rule.run(ctx)
+        except Exception:
+            pass
+        mods = sorted(ctx.consulted)
+        for kind in ("unparse", "rename-locals"):
+            root = _copy_src(tmp, f"p_{kind}")
+            n_changed = 0
+            for mn in mods:
+                m = model.modules.get(mn)
+                if m is None:
+                    continue
+                path = os.path.join(root, os.path.relpath(m.path, REPO))
+                tree = ast.parse(m.source)
+                if kind == "rename-locals":
+                    n_changed += _rename_locals(tree)
+                else:
+                    n_changed += 1
+                new = ast.unparse(ast.fix_missing_locations(tree)) + "\n"
+                compile(new, path, "exec")
+                with open(path, "w") as fh:
+                    fh.write(new)
+            jobs.append(("preserving", f"{kind} of {len(mods)} consulted module(s), {n_changed} change(s)", os.path.join(root, "src"), False))
+        with ThreadPoolExecutor(16) as ex:
+            res = list(ex.map(lambda j: _run_check(prop, j[2]), jobs))
+        for (cls, label, src, expect), (rc, first) in zip(jobs, res):
+            if cls == "breaking":
+                out["breaking"].append(dict(variant=label, expected="fires", exit=rc, ok=(rc == 1) == expect, first=first))
+            else:
+                out["preserving"].append(dict(variant=label, expected="silent", exit=rc, ok=rc == 0, first=first))
+    finally:
+        shutil.rmtree(tmp, ignore_errors=True)
+    nb = [b for b in out["breaking"] if "ok" in b]
+    return {
+        "selftest": out,
+        "selftest_summary": f"breaking variants caught {sum(1 for b in nb if b['exit'] == 1)}/{len(nb)}; "
+                            f"preserving twins silent {sum(1 for p in out['preserving'] if p['ok'])}/{len(out['preserving'])}",
+    }
